@@ -1,8 +1,12 @@
 /-
 GENERATED on every run by tools/corr/C06.py regenerate() — do not edit.
-Butcher tableaux read off the real kawin/solver/Iterators.py (through DESolver._getdXdt/_updateX)
-by running the iterators on symbolic t, dt, X with a recording right-hand side.
+Butcher tableaux read off the real kawin code by running it on symbolic t, dt, X with recording callbacks.
 Row i of A holds a_{i,0..i-1}; stage i is evaluated at time t + c_i*dt.
+`euler` / `rk4`: kawin/solver/Iterators.py driven through DESolver._getdXdt/_updateX directly.
+`*_viaModel`: what the getdXdt/postProcess callbacks of a GenericModel (nested state: scalar + arrays) see
+when the iterator is driven by GenericModel.solve (flattenX/unflattenX, DESolver.solve).
+`*_viaCoupler`: what each sub-model of a Coupler of 2 and of a Coupler of 3 differently shaped models sees
+(Coupler.getdXdt/getDt/correctdXdt/flattenX/unflattenX/postProcess), 5 entries.
 -/
 import KawinV.Model.Solver
 namespace KawinV.Gen.C06
@@ -19,5 +23,53 @@ def rk4 : Tableau Rat :=
   { c := [0, 1/2, 1/2, 1],
     A := [[], [1/2], [0, 1/2], [0, 0, 1]],
     b := [1/6, 1/3, 1/3, 1/6] }
+
+/-- ExplicitEulerIterator as seen by the callbacks of a model solved with GenericModel.solve -/
+def euler_viaModel : Tableau Rat :=
+  { c := [0],
+    A := [[]],
+    b := [1] }
+
+/-- ExplicitEulerIterator as seen by every sub-model of a Coupler (2 models, then 3 models) -/
+def euler_viaCoupler : List (Tableau Rat) :=
+  [{ c := [0],
+     A := [[]],
+     b := [1] },
+   { c := [0],
+     A := [[]],
+     b := [1] },
+   { c := [0],
+     A := [[]],
+     b := [1] },
+   { c := [0],
+     A := [[]],
+     b := [1] },
+   { c := [0],
+     A := [[]],
+     b := [1] }]
+
+/-- RK4Iterator as seen by the callbacks of a model solved with GenericModel.solve -/
+def rk4_viaModel : Tableau Rat :=
+  { c := [0, 1/2, 1/2, 1],
+    A := [[], [1/2], [0, 1/2], [0, 0, 1]],
+    b := [1/6, 1/3, 1/3, 1/6] }
+
+/-- RK4Iterator as seen by every sub-model of a Coupler (2 models, then 3 models) -/
+def rk4_viaCoupler : List (Tableau Rat) :=
+  [{ c := [0, 1/2, 1/2, 1],
+     A := [[], [1/2], [0, 1/2], [0, 0, 1]],
+     b := [1/6, 1/3, 1/3, 1/6] },
+   { c := [0, 1/2, 1/2, 1],
+     A := [[], [1/2], [0, 1/2], [0, 0, 1]],
+     b := [1/6, 1/3, 1/3, 1/6] },
+   { c := [0, 1/2, 1/2, 1],
+     A := [[], [1/2], [0, 1/2], [0, 0, 1]],
+     b := [1/6, 1/3, 1/3, 1/6] },
+   { c := [0, 1/2, 1/2, 1],
+     A := [[], [1/2], [0, 1/2], [0, 0, 1]],
+     b := [1/6, 1/3, 1/3, 1/6] },
+   { c := [0, 1/2, 1/2, 1],
+     A := [[], [1/2], [0, 1/2], [0, 0, 1]],
+     b := [1/6, 1/3, 1/3, 1/6] }]
 
 end KawinV.Gen.C06
